@@ -30,6 +30,8 @@ STACK(24, cb::covariant_cast<float, vf::probe<1, 2, size_t, double>>);
 STACK(25, cb::linear<vf::probe<2, 2, size_t, float>>);
 STACK(26, cb::nearest_neighbour<vf::probe<1, 1, size_t, float>>);
 STACK(27, cb::affine<vf::probe<1, 1, double, float>>);
+STACK(28, cb::clamp<vf::probe<2, 1, float, float>>);          // floating-point box: infinities / NaN payloads are legal bounds
+STACK(29, cb::clamp<vf::probe<1, 2, double, double>>);
 // cross-type partners (C07): same structure, other interpolator and/or storage width
 STACK(30, cb::linear<cb::strided<cv::size2, cb::array<cv::float1>>>);            // vs 10
 STACK(31, cb::nearest_neighbour<cb::strided<cv::size2, cb::array<cv::double1>>>);   // vs 10: widening
